@@ -93,6 +93,10 @@ func genGR(seed uint64, tier, mode string) *Script {
 		p.GR.Enabled = true
 		p.GR.LLGR, p.GR.PeerLLGR = true, true
 		p.GR.LLGRTime = pick(g, []int{20, 60, 300})
+		if g.p(40) {
+			// the neighbour may advertise another long-lived stale time per family
+			p.GR.LLGRTime6 = pick(g, []int{20, 45, 90, 300})
+		}
 		p.GR.LLGRFamilies = p.GR.Families
 		if g.p(30) {
 			p.GR.RestartTime = 0
@@ -166,10 +170,12 @@ func genGR(seed uint64, tier, mode string) *Script {
 					add(Op{Kind: "failconn", Arg: pick(g, []string{"close", "badopen", "opencofirm"})})
 					add(Op{Kind: "probe"})
 				}
-				add(Op{Kind: "tollgr", N: -200})
-				add(Op{Kind: "probe"})
-				add(Op{Kind: "tollgr", N: 200})
-				add(Op{Kind: "probe"})
+				for k := 0; k < 2; k++ { // (twice: the families may have different long-lived times)
+					add(Op{Kind: "tollgr", N: -200})
+					add(Op{Kind: "probe"})
+					add(Op{Kind: "tollgr", N: 200})
+					add(Op{Kind: "probe"})
+				}
 			}
 			add(Op{Kind: "wait", N: 7000})
 			add(Op{Kind: "up", Peer: 0})
@@ -292,7 +298,7 @@ func (w *simWorld) grCatchUp(st *grState) {
 				}
 				r.llgr = true
 				if st.llgr[k.Fam] == 0 {
-					st.llgr[k.Fam] = exp + time.Duration(st.p.cfg.GR.LLGRTime)*time.Second
+					st.llgr[k.Fam] = exp + time.Duration(st.p.cfg.GR.llgrTimeOf(k.Fam))*time.Second
 				}
 			}
 			w.probe("llgr_started")
@@ -300,7 +306,9 @@ func (w *simWorld) grCatchUp(st *grState) {
 			for _, fn := range st.p.cfg.GR.LLGRFamilies {
 				// gobgp runs one long-lived timer per LLGR family of the neighbour, routes or not
 				if hasString(st.p.cfg.Families, fn) {
-					st.llgrEnd = exp + time.Duration(st.p.cfg.GR.LLGRTime)*time.Second
+					if e := exp + time.Duration(st.p.cfg.GR.llgrTimeOf(famByName(fn)))*time.Second; e > st.llgrEnd {
+						st.llgrEnd = e
+					}
 				}
 			}
 			if st.llgrEnd == 0 {
@@ -341,6 +349,14 @@ func (a *AttrSpec) hasComm(c uint32) bool {
 }
 
 // ---------------------------------------------------------------- ops
+
+// llgrTimeOf: the long-lived stale time the neighbour advertises for a family.
+func (g *GRCfg) llgrTimeOf(f wFamily) int {
+	if f == famV6 && g.LLGRTime6 != 0 {
+		return g.LLGRTime6
+	}
+	return g.LLGRTime
+}
 
 func grSettle() {
 	time.Sleep(20 * time.Millisecond)
